@@ -708,7 +708,9 @@ namespace ip {
 	// operation since we last drained, wake up the reader
 	void tcp::socket::maybe_wakeup_reader()
 	{
-		if (m_incoming_queue.size() != 1 || (!m_recv_handler && !m_wait_recv_handler)) return;
+		// a pending read implies the queue was empty before this arrival; the
+		// arrival may have released several segments from the reorder buffer
+		if (m_incoming_queue.empty() || (!m_recv_handler && !m_wait_recv_handler)) return;
 
 		if (m_recv_null_buffers)
 		{
